@@ -65,7 +65,7 @@ def rules(ctx: Ctx) -> None:
             if key is None:
                 continue
             n_lookups += 1
-            st = nf.state(key, f)
+            st = nf.query(key, f)
             ok = st <= {N1} and bool(st)
             ctx.ob("R08.2", f"alias-lookup-key-normalised-once:{owner}", ok, loc(f.mod, n),
                    f"`{u(n)[:70]}`: the dictionary is keyed by normalised aliases (N1); the look-up key is {sorted(st)} - a raw or twice-normalised key makes the match depend on the name's spelling")
@@ -75,6 +75,31 @@ def rules(ctx: Ctx) -> None:
             schema_based = [a for a in atoms if "schema" in a]
             ctx.ob("R08.3", f"cte-candidates-decided-on-the-text:{owner}", dot_text and not schema_based, loc(f.mod, n),
                    "only an undotted identifier may denote a CTE; the test must look at the raw text ('.' not in <raw>), " + (f"not at `{schema_based[0]}`" if schema_based else f"guards are {atoms[:3]}"))
+    # the same look-up written as a scan: `next(s for s in <ctes> if s.alias == key)` / a loop comparing `.alias` with a key
+    for f in prog.funcs.values():
+        if not f.mod.name.startswith("sqllineage.core.parser"):
+            continue
+        for n in prog.walk_fn(f):
+            if not (isinstance(n, ast.Compare) and len(n.ops) == 1 and isinstance(n.ops[0], (ast.Eq, ast.NotEq))):
+                continue
+            sides = [n.left, n.comparators[0]]
+            al = next((x for x in sides if isinstance(x, ast.Attribute) and x.attr == "alias" and isinstance(x.value, ast.Name)), None)
+            if al is None:
+                continue
+            key = sides[1] if sides[0] is al else sides[0]
+            # the object whose alias is compared is an element of a CTE collection
+            from_ctes = any(isinstance(v, (ast.For, ast.comprehension)) and u(v.iter).endswith(".cte") for _k, v in prog.local_defs(f, al.value.id)) or any(
+                isinstance(g_, ast.comprehension) and isinstance(g_.target, ast.Name) and g_.target.id == al.value.id and u(g_.iter).endswith(".cte")
+                for a_ in prog.ancestors(n) for g_ in getattr(a_, "generators", []))
+            if not from_ctes:
+                continue
+            n_lookups += 1
+            ctx.touched(f)
+            st = nf.query(key, f)
+            ok = st <= {N1} and bool(st)
+            ctx.ob("R08.2", f"alias-lookup-key-normalised-once:{f.owner}", ok, loc(f.mod, n),
+                   f"`{u(n)[:70]}`: CTE aliases are stored normalised (N1); the key they are compared with is {sorted(st)} - a raw or twice-normalised key makes the match depend on "
+                   f"the name's spelling (quotes, letter case)")
     ctx.floor("look-ups in alias-keyed dictionaries", n_lookups, 2)
     # a CTE reference keeps the referencing alias or the CTE's own name
     # ---- R08.4 identity -------------------------------------------------------------------------
